@@ -1637,8 +1637,14 @@ func (cc *ClientConn) writeHeaders(streamID uint32, endStream bool, maxFrameSize
 	first := true // first frame written (HEADERS is first, then CONTINUATION)
 	for len(hdrs) > 0 && cc.werr == nil {
 		chunk := hdrs
-		if len(chunk) > maxFrameSize {
-			chunk = chunk[:maxFrameSize]
+		max := maxFrameSize
+		if first && !cc.t.HeaderPriority.IsZero() {
+			// The 5 octets of priority fields that WriteHeaders puts in front of
+			// the block fragment count against the peer's SETTINGS_MAX_FRAME_SIZE.
+			max -= 5
+		}
+		if len(chunk) > max {
+			chunk = chunk[:max]
 		}
 		hdrs = hdrs[len(chunk):]
 		endHeaders := len(hdrs) == 0
